@@ -215,11 +215,62 @@ struct Adv<'a> {
     hot: HashSet<u64>,
     /// the forged-filter-hash operator is used at most once per scenario (it stalls the filter sync afterwards)
     forge_left: u32,
+    /// transactions the user asked for (fetch_transaction) that were never committed on any chain; the adversary knows their bodies
+    uncommitted: std::collections::HashMap<Byte32, ckb_types::core::TransactionView>,
+}
+
+/// Answer to a GetTransactionsProof that names a never-committed transaction: the honest answer for everything else, plus a filtered
+/// block the peer made up for that transaction - the real block at some height (the height of the last header itself, the one below,
+/// or any lower one) re-built with the transaction in its body, header re-committed to the body and mined again, CBMT proof and v1
+/// fields consistent with the made-up block. Nothing binds that header to the chain root of the last header: the MMR proof covers
+/// the genuine headers only.
+fn forged_txs_answer(rng: &mut Rng, chain: &Chain, req: &packed::GetTransactionsProof, uncommitted: &std::collections::HashMap<Byte32, ckb_types::core::TransactionView>) -> Option<(Vec<u8>, String)> {
+    let last = chain.num_of(&req.last_hash())?;
+    if last < 2 {
+        return None;
+    }
+    let (h, tx) = req.tx_hashes().into_iter().find_map(|h| uncommitted.get(&h).map(|t| (h.clone(), t.clone())))?;
+    let (n, wh) = match rng.below(3) {
+        0 => (last, "at-the-number-of-the-last-header"),
+        1 => (last - 1, "one-below-the-last-header"),
+        _ => (rng.range(1, last - 1), "at-a-lower-height"),
+    };
+    let real = chain.blocks[n as usize].clone();
+    let cellbase = real.transactions()[0].clone();
+    let fake = real.as_advanced_builder().set_transactions(vec![cellbase, tx]).build();
+    let fake = super::super::chain::mine_block(chain.params.pow, fake, rng.next_u64());
+    let parts = server::txs_proof_parts(chain, req);
+    let mut fbs: Vec<packed::FilteredBlock> = parts.found.iter().map(|(bn, idxs)| server::filtered_block(&chain.blocks[*bn as usize], idxs)).collect();
+    let nums: Vec<u64> = parts.found.iter().map(|(bn, _)| *bn).collect();
+    let mut uncles: Vec<Byte32> = nums.iter().map(|n| chain.blocks[*n as usize].calc_uncles_hash()).collect();
+    let mut exts: Vec<packed::BytesOpt> = nums.iter().map(|n| Pack::pack(&chain.blocks[*n as usize].extension())).collect();
+    fbs.push(server::filtered_block(&fake, &[1]));
+    uncles.push(fake.calc_uncles_hash());
+    exts.push(Pack::pack(&fake.extension()));
+    let missing: Vec<Byte32> = parts.missing.iter().filter(|m| **m != h).cloned().collect();
+    let m = packed::SendTransactionsProofV1::new_builder()
+        .last_header(chain.vh(last))
+        .proof(chain.proof(last, &nums))
+        .filtered_blocks(packed::FilteredBlockVec::new_builder().set(fbs).build())
+        .missing_tx_hashes(missing.pack())
+        .blocks_uncles_hash(uncles.pack())
+        .blocks_extension(packed::BytesOptVec::new_builder().set(exts).build())
+        .build();
+    Some((server::lc_raw_union(packed::SendTransactionsProof::default().into(), m.as_slice()).to_vec(), format!("SendTransactionsProof|made-up-block-for-an-uncommitted-transaction|{}|{}", wh, if nums.contains(&n) { "same-height-as-a-genuine-block-of-the-answer" } else if nums.is_empty() { "no-genuine-block-in-the-answer" } else { "other-height-than-the-genuine-blocks" })))
 }
 
 impl<'a> Hook for Adv<'a> {
     fn respond(&mut self, w: &mut World, pi: usize, sent: &Sent, honest: Vec<Resp>) -> Vec<Resp> {
         let chain = &w.chains[w.peers[pi].chain];
+        if sent.proto == LC.id() && !self.uncommitted.is_empty() && self.rng.chance(2, 3) {
+            if let Ok(m) = packed::LightClientMessageReader::from_compatible_slice(&sent.data) {
+                if let packed::LightClientMessageUnionReader::GetTransactionsProof(r) = m.to_enum() {
+                    if let Some((d, op)) = forged_txs_answer(&mut self.rng, chain, &r.to_entity(), &self.uncommitted) {
+                        return vec![Resp { proto: P::Lc, data: d.into(), label: Label::Invalid(op) }];
+                    }
+                }
+            }
+        }
         let mut out = vec![];
         for r in honest {
             if self.rng.below(100) >= self.pct {
@@ -352,7 +403,7 @@ fn scenario(seed: u64, k: u64, out: &Out) {
         }
     }
     let desc = json!({"seed": seed, "scenario": k, "len": len, "last_n": ccfg.last_n, "peers": npeers, "pow": format!("{:?}", params.pow)});
-    let mut adv = Adv { out, k, rng: rng.fork(5), pct: *rng.pick(&[10u64, 25, 50]), desc: desc.clone(), before: None, judged: 0, substituted: vec![], hot: hot.clone(), forge_left: if rng.chance(1, 3) { 1 } else { 0 } };
+    let mut adv = Adv { out, k, rng: rng.fork(5), pct: *rng.pick(&[10u64, 25, 50]), desc: desc.clone(), before: None, judged: 0, substituted: vec![], hot: hot.clone(), forge_left: if rng.chance(1, 3) { 1 } else { 0 }, uncommitted: Default::default() };
     w.connect_all();
     for step in 0..rng.range(20, 70) {
         if w.dead {
@@ -373,6 +424,16 @@ fn scenario(seed: u64, k: u64, out: &Out) {
             if rng.chance(1, 2) {
                 let h: H256 = b.hash().unpack();
                 let _ = w.c().rpc_chain().fetch_header(h);
+            } else if rng.chance(1, 3) {
+                // the user asks for a transaction that was never committed (its body is known to everybody, e.g. it was broadcast once)
+                let t = TransactionBuilder::default()
+                    .input(packed::CellInput::new(packed::OutPoint::new(Byte32::new(rand32(&mut rng)), 0), 0))
+                    .output(packed::CellOutput::new_builder().capacity(Capacity::shannons(91_0000_0000).pack()).lock(super::super::chain::lock_script(0)).build())
+                    .output_data(Default::default())
+                    .build();
+                let h: H256 = t.hash().unpack();
+                adv.uncommitted.insert(t.hash(), t);
+                let _ = w.c().rpc_tx().fetch_transaction(h);
             } else {
                 let h: H256 = b.transactions()[rng.pick_idx(b.transactions().len())].hash().unpack();
                 let _ = w.c().rpc_tx().fetch_transaction(h);
